@@ -238,12 +238,15 @@ func runRace(c *Ctx) {
 		fmt.Sscan(s, &n)
 	}
 	cliBin := os.Getenv("VERIF_TASK_BIN_RACE")
+	only := os.Getenv("VERIF_RACE_VIA") // development aid: restrict to one evaluator (inproc | cli)
 	var jobs []raceWorkload
 	for i := 0; i < n; i++ {
 		wl := genRaceWorkload(rand.New(rand.NewSource(c.Rng.Int63())), fmt.Sprintf("s%d-%s-%d", c.Seed, c.Tier, i))
 		wl.Via = "inproc"
-		jobs = append(jobs, wl)
-		if cliBin != "" {
+		if only != "cli" || cliBin == "" {
+			jobs = append(jobs, wl)
+		}
+		if cliBin != "" && only != "inproc" {
 			w2 := wl
 			w2.Via = "cli"
 			jobs = append(jobs, w2)
